@@ -6,7 +6,9 @@
 //        w<hex> write, e write of 0 bytes, l<hex> << const char*, i<n> << int, u<n> << uint64_t, c<hex> << char,
 //        b0|b1 << bool, a<hex> << char[16] holding a shorter text, f flush, m move the stream object
 //     -> U [threw] <captured bytes hex, header lines sorted>
-//   Q <method idx> <path hex> <query k=v,.. hex|-> <cookies n=v,.. hex|-> <body hex>
+//   Q <method idx> <path hex> <query k=v,.. hex|-> <cookies n=v,.. hex|-> <body hex> [h=<name hex>:<value hex>,...]
+//        h: registered (typed) headers, made by the header registry from the name, filled with parse(value) and given
+//        to the builder; the handler reports each of them as its typed object writes it
 // Output (head = status/request line first, the other header lines sorted):
 //   P emitted <bytes hex> size=<getResponseSize>  | P rejected received=<bytes received>
 //   T <bytes hex>      Q <bytes hex> parsed=<what the real server handler saw>
@@ -82,6 +84,7 @@ struct Plan
     std::atomic<int> outcome { 0 }; // 1 fulfilled, 2 rejected
     std::atomic<long> size { -1 };
     std::string seen;
+    std::vector<std::string> qheaders; // mode Q: names of the typed headers the request was built with
 };
 static Plan* g_plan = nullptr;
 
@@ -109,6 +112,27 @@ public:
             for (size_t i = 0; i < ck.size(); ++i)
                 os << (i ? "," : "") << ck[i];
             os << " b=" << pv::hex(req.body());
+            if (!p.qheaders.empty())
+            {
+                os << " h=";
+                bool first = true;
+                for (const auto& name : p.qheaders)
+                {
+                    os << (first ? "" : ",") << pv::hex(name) << ":";
+                    first  = false;
+                    auto h = req.headers().tryGet(name);
+                    if (h)
+                    {
+                        std::ostringstream v;
+                        h->write(v);
+                        os << pv::hex(v.str());
+                    }
+                    else if (auto raw = req.headers().tryGetRaw(name))
+                        os << "raw" << pv::hex(raw->value());
+                    else
+                        os << "missing";
+                }
+            }
             p.seen = os.str();
             response.send(Http::Code::Ok, "");
             return;
@@ -252,7 +276,7 @@ static std::string handle(const std::string& line)
                 cur.push_back(c);
         }
     }
-    else if (!(t[0] == "Q" && t.size() == 6))
+    else if (!(t[0] == "Q" && (t.size() == 6 || t.size() == 7)))
         return "BADCASE";
 
     Http::Endpoint server(Address("127.0.0.1", Port(0)));
@@ -305,6 +329,7 @@ static std::string handle(const std::string& line)
             std::string url = "http://127.0.0.1:" + std::to_string(pport) + pv::unhex(t[2]);
             int m           = atoi(t[1].c_str());
             auto rb         = m == 2 ? client.post(url) : m == 4 ? client.put(url) : m == 5 ? client.patch(url) : m == 6 ? client.del(url) : client.get(url);
+            rb.method(static_cast<Http::Method>(m));
             Http::Uri::Query query;
             for (auto& kv : pairs(t[3]))
                 query.add(kv.first, kv.second);
@@ -314,6 +339,25 @@ static std::string handle(const std::string& line)
             std::string body = pv::unhex(t[5]);
             if (!body.empty())
                 rb.body(body);
+            if (t.size() == 7 && t[6].size() > 2)
+            {
+                std::string cur;
+                for (char ch : t[6].substr(2) + ",")
+                {
+                    if (ch != ',')
+                    {
+                        cur.push_back(ch);
+                        continue;
+                    }
+                    auto colon       = cur.find(':');
+                    std::string name = pv::unhex(cur.substr(0, colon));
+                    auto h           = Http::Header::Registry::instance().makeHeader(name);
+                    h->parse(pv::unhex(cur.substr(colon + 1)));
+                    rb.header(std::shared_ptr<Http::Header::Header>(std::move(h)));
+                    plan.qheaders.push_back(name);
+                    cur.clear();
+                }
+            }
             auto resp = rb.timeout(std::chrono::milliseconds(3000)).send();
             std::atomic<int> st { 0 };
             resp.then([&](Http::Response) { st = 1; }, [&](std::exception_ptr) { st = 2; });
